@@ -19,7 +19,7 @@ ASSUMPTIONS = ['hardware and network layers are replaced by fakes (fake Crazyrad
                'socket / serial modules); an audit hook turns any real socket.connect into a harness error',
                '"claims a URI" = connect() does not raise WrongUriType']
 REQUIRED = ['mon.parse_uri', 'mon.malformed', 'mon.settings_applied', 'mon.scan_results', 'mon.scheme_dispatch', 'mon.open_link_bad',
-            'mon.serial_dongle_ids', 'mon.scans_of_address_zero']
+            'mon.serial_dongle_ids', 'mon.scans_of_address_zero', 'mon.scheme_dispatch_after_a_second_init_drivers_call']
 DESC_TIMEOUT = 900
 RATES = {'250K': 0, '1M': 1, '2M': 2}
 _guard = {'installed': False, 'hits': []}
@@ -277,11 +277,16 @@ def run_dispatch(desc, ctx):
         'none': ['', 'foo://0', 'radio', 'http://0/80/2M', 'usb:/0', 'radio:/0/80/2M', 'tcp//1.2.3.4:5', 'serial:ttyUSB0',
                  'Radio://0/80/2M', ' radio://0/80/2M', 'bogus://%d' % rnd.randrange(100)],
     }
-    lists = {
-        'default': [crtp.RadioDriver, crtp.UsbDriver, crtp.UdpDriver, crtp.PrrtDriver, crtp.TcpDriver],
-        'with-serial': [crtp.RadioDriver, crtp.UsbDriver, crtp.SerialDriver, crtp.UdpDriver, crtp.PrrtDriver, crtp.TcpDriver],
+    # the driver lists are what the library's own init_drivers() registers, for every history of calls an application makes
+    histories = {
+        'default': [{}],
+        'with-serial': [{'enable_serial_driver': True}],
+        'default-then-with-serial': [{}, {'enable_serial_driver': True}],
+        'with-serial-then-default': [{'enable_serial_driver': True}, {}],
     }
-    ob = {'claims': {}}
+    ob = {'claims': {}, 'gld': {}}
+
+    saved_classes = list(crtp.CLASSES)
 
     def fn(s):
         devs = [radiosim.FakeUsbRadio(serial='D%09d' % i) for i in range(10)]
@@ -295,13 +300,22 @@ def run_dispatch(desc, ctx):
             def sendto(self, data, addr):
                 self.sent += bytes(data)
         ud.socket = FakeSocketModule(lambda: UdpSock())
-        ser = FakeSerial()
-        ser.q.put(bytes([0xFF, 0x00]))
-        tr.serial = types.SimpleNamespace(Serial=lambda d, b, timeout=None: ser)
+        def mk_ser(d, b, timeout=None):
+            ser = FakeSerial()
+            ser.q.put(bytes([0xFF, 0x00]))
+            return ser
+        tr.serial = types.SimpleNamespace(Serial=mk_ser)
         sd.list_ports = types.SimpleNamespace(comports=lambda: [types.SimpleNamespace(name='ttyFAKE0', device='/dev/ttyFAKE0')])
         try:
             with contextlib.redirect_stdout(io.StringIO()):
-                for lname, classes in lists.items():
+                for lname, calls in histories.items():
+                    crtp.CLASSES[:] = []
+                    for kw in calls:
+                        crtp.init_drivers(**kw)
+                    classes = []
+                    for c in crtp.CLASSES:
+                        if c not in classes:
+                            classes.append(c)
                     for scheme, us in uris.items():
                         for uri in us:
                             claimed = []
@@ -321,7 +335,20 @@ def run_dispatch(desc, ctx):
                                 except Exception:
                                     claimed.append(cls.__name__)
                             ob['claims'][(lname, scheme, uri)] = claimed
+                            rd.RadioManager._radios = []
+                            rd.RadioManager._lock = ds.Semaphore(1)
+                            try:
+                                inst = crtp.get_link_driver(uri, None, lambda m: None)
+                                ob['gld'][(lname, scheme, uri)] = inst is not None
+                                if inst is not None:
+                                    try:
+                                        inst.close()
+                                    except Exception:
+                                        pass
+                            except Exception:
+                                ob['gld'][(lname, scheme, uri)] = True
         finally:
+            crtp.CLASSES[:] = saved_classes
             cr._find_devices, cfusb._find_devices, tr.socket, ud.socket = old[:4]
             if old[4] is None:
                 del tr.serial
@@ -347,6 +374,11 @@ def run_dispatch(desc, ctx):
         if claimed != want:
             ctx.violate('uri:dispatch:scheme-%s-claimed-by-%s' % (scheme, '+'.join(claimed) or 'nobody'),
                         {'uri': uri, 'driver_list': lname, 'claimed_by': claimed, 'expected': want})
+        if lname.count('-then-'):
+            ctx.count('mon.scheme_dispatch_after_a_second_init_drivers_call')
+        if ob['gld'].get((lname, scheme, uri)) != bool(want):
+            ctx.violate('uri:dispatch:get_link_driver-%s-for-scheme-%s' % ('found-a-driver' if not want else 'found-no-driver', scheme),
+                        {'uri': uri, 'driver_list': lname, 'expected_owner': want})
     if _guard['hits']:
         ctx.inconclusive_('harness: real network access attempted: %r' % _guard['hits'][:2])
     ctx.sample({'schemes': sorted(uris), 'example': {'uri': 'tcp://192.168.4.1:5000', 'claimed_by': ob['claims'].get(('default', 'tcp', 'tcp://192.168.4.1:5000'))}})
